@@ -619,7 +619,30 @@ impl DeriveShape for Expression {
                     // Update the symbol table with the inferred left shape
                     if let Expression::Simple(Value::Symbol(pi)) = def.left.as_ref() {
                         if let Shape::TypeErr(_, _) = &shape {
-                            // Don't update symbol table on type errors
+                            // A tuple shape that was only inferred from earlier field
+                            // accesses is open: another field extends it.
+                            if let Shape::Tuple(tshape) = &left_shape {
+                                if let Some(field) = first_accessor_name(&def.right) {
+                                    if is_inferred_tuple(tshape)
+                                        && !tshape.val.iter().any(|(n, _)| n.val == field.val)
+                                    {
+                                        let mut extended = tshape.clone();
+                                        extended.val.push((
+                                            field,
+                                            Shape::Narrowed(NarrowedShape {
+                                                pos: tshape.pos.clone(),
+                                                types: NarrowingShape::Any,
+                                            }),
+                                        ));
+                                        symbol_table.insert(pi.val.clone(), Shape::Tuple(extended));
+                                        return Shape::Narrowed(NarrowedShape {
+                                            pos: def.pos.clone(),
+                                            types: NarrowingShape::Any,
+                                        });
+                                    }
+                                }
+                            }
+                            // Otherwise don't update symbol table on type errors
                         } else {
                             if let Shape::Hole(_) = &left_shape {
                                 let inferred = infer_container_shape_from_dot(
@@ -744,6 +767,32 @@ impl DeriveShape for Expression {
                 }
             }
         }
+    }
+}
+
+/// True for a tuple shape produced by `infer_container_shape_from_dot`: all we
+/// know about such a value is which fields have been accessed so far. Its field
+/// shapes are unconstrained and carry the position of the tuple shape itself,
+/// which no tuple literal does.
+fn is_inferred_tuple(tshape: &PositionedItem<TupleShape>) -> bool {
+    !tshape.val.is_empty()
+        && tshape.val.iter().all(|(_, s)| {
+            matches!(s, Shape::Narrowed(NarrowedShape { pos, types: NarrowingShape::Any }) if *pos == tshape.pos)
+        })
+}
+
+/// The field name a selector starts with (`b` in `t.b` and in `t.b.c`).
+fn first_accessor_name(expr: &Expression) -> Option<PositionedItem<Rc<str>>> {
+    match expr {
+        Expression::Simple(Value::Symbol(pi)) | Expression::Simple(Value::Str(pi)) => {
+            Some(PositionedItem::new(pi.val.clone(), pi.pos.clone()))
+        }
+        Expression::Binary(BinaryOpDef {
+            kind: BinaryExprType::DOT,
+            left,
+            ..
+        }) => first_accessor_name(left),
+        _ => None,
     }
 }
 
